@@ -269,8 +269,11 @@ class ModelCompiler:
                 if any(isinstance(el, list) for el in defn.cells):
                     for column in defn.cells:
                         for row_address in column:
-                            self.model.cells[row_address].defined_names.append(
-                                name)
+                            # (The range may cover cells that are empty, or
+                            # lie on a sheet that was not loaded.)
+                            if row_address in self.model.cells:
+                                self.model.cells[
+                                    row_address].defined_names.append(name)
                 else:
                     # programmer error
                     message = "This isn't a dim2 array. {}".format(name)
